@@ -21,7 +21,8 @@ def specs_concurrent():
     return [(e2.concurrent_two(v), {}) for v in ("plain", "p1fails", "term-waiter", "int-waiter", "kill-holder", "term-holder")] + [
         (e2.concurrent_three(), {}), (e2.inherited_ignore("INT"), {}), (e2.inherited_ignore("TERM"), {}),
         (e2.forking_body("NONE"), {}), (e2.forking_body("TERM"), {}), (e2.forking_body("INT"), {})] + [
-        (e2.forking_loop(sig, d), {}) for sig in ("TERM", "INT") for d in (0.02, 0.11, 0.19, 0.27, 0.36, 0.44)]
+        (e2.forking_loop(sig, d), {}) for sig in ("TERM", "INT") for d in (0.02, 0.11, 0.19, 0.27, 0.36, 0.44)] + [
+        (e2.preempted_in_handler(k, sig), {}) for k in range(1, 16) for sig in (("TERM",) if k % 3 else ("TERM", "INT"))]
 
 
 def validate(histories):
